@@ -80,6 +80,19 @@ Proof. exact module_string_imports. Qed.
 Theorem C11_class_rendering_keeps_imports : forall classes rmap nc fuel c indent rx s x s',
   class_string classes rmap nc fuel c indent rx s = Ok (x, s') -> imp s s'.
 Proof. exact class_string_imp. Qed.
+(* a whole class written here: the named types of its constructor parameters and type-parameter bounds, of every written attribute,
+   of every rendered method and property (gens: the class's generics after its header) and its public superclasses are imported
+   when they have to be *)
+Theorem C11_class_types_are_imported : forall classes rmap nc fu c indent rx s x s',
+  class_string classes rmap nc (S fu) c indent rx s = Ok (x, s') ->
+  (if negb rx then shorter_reexport (c_name c) (c_reexported_by c) s else None) = None ->
+  imp s s' /\ all_imported classes rmap s s' (class_sig_leaves c) /\
+  Forall (fun a => all_imported classes rmap s s' (attr_leaves a)) (filter Spec.Markers.attr_rendered (c_attrs c)) /\
+  (exists gens, Forall (fun m => all_imported classes rmap s s' (method_leaves nc gens m))
+                       (filter (fun m => negb (Proofs.GenProofs.method_skipped false [] m)) (c_methods c))) /\
+  Forall (fun sc => imported classes rmap sc s s')
+         (if nonempty (c_supers c) && negb (is_abstract c) then filter (fun sc => negb (Naming.is_internal (super_name sc))) (c_supers c) else []).
+Proof. exact class_string_imports. Qed.
 Print Assumptions C11_builtins_not_imported.
 Print Assumptions C11_foreign_class_registered.
 Print Assumptions C11_import_path_minimal.
@@ -93,3 +106,4 @@ Print Assumptions C11_public_superclasses_are_imported.
 Print Assumptions C11_function_types_are_imported.
 Print Assumptions C11_module_function_types_are_imported.
 Print Assumptions C11_class_rendering_keeps_imports.
+Print Assumptions C11_class_types_are_imported.
